@@ -81,7 +81,7 @@ class Shadow(object):
             if st in ('NEW', 'NEWRESOLVE') and sid in self.sids:
                 return False
             for a in answers:
-                if isinstance(a[0], list) and a[0][0] == 'circ' and not a[0][1] < len(self.objs):
+                if a[1] != 'later' and isinstance(a[0], list) and a[0][0] == 'circ' and not a[0][1] < len(self.objs):
                     return False
             return True
         if k == 'setatt':
@@ -519,6 +519,9 @@ class P(core.Prop):
         else:
             kind = 'none'
         mode = rng.choice(['plain', 'plain', 'wrapped', 'later'] if allow_later else ['plain', 'plain', 'wrapped'])
+        if mode == 'later' and rng.random() < 0.2:
+            # a late answer may name a circuit object that does not exist yet when the attacher is consulted
+            kind = ['circ', len(sh.objs) + rng.randrange(0, 2)]
         return [kind, mode, rng.choice('dc')]
 
     @staticmethod
@@ -572,6 +575,39 @@ class P(core.Prop):
             for a in answers[:rng.randrange(0, 4)]:
                 a[0], a[1] = 'none', 'plain'
         return ['stream', sid, st, cid, host, port, src, answers]
+
+    def _built_meanwhile(self, rng, sh, push, finding_ok):
+        """the usual recipe of an asynchronous attacher: asked about a stream, it has a circuit built, waits for BUILT
+        and answers with it -- CIRC events create the circuit between consultation and answer (variants: it only
+        gets LAUNCHED, it is built and closed again, another circuit is created first, an old circuit closes)"""
+        if sh.inst is None or sh.inst == 'circ':
+            return
+        op = None
+        for _ in range(8):
+            op = self._stream_move(rng, sh, None, False)
+            if sh.first_sight(op) and not op[4].lower().endswith('.exit'):
+                break
+        else:
+            return
+        shift = 1 if rng.random() < 0.25 else 0
+        late = [['circ', len(sh.objs) + shift], 'later', rng.choice('dc')]
+        op[7] = [list(late) for _ in range(max(4, len(op[7])))]
+        before = sh.npend
+        if not push(op) or sh.npend != before + 1:
+            return
+        fresh = [c for c in range(1, 9) if c not in sh.alive]
+        rng.shuffle(fresh)
+        plans = [['LAUNCHED', 'EXTENDED', 'BUILT'], ['BUILT'], ['LAUNCHED', 'BUILT'], ['LAUNCHED', 'BUILT'],
+                 ['LAUNCHED'], ['LAUNCHED', 'EXTENDED'], ['BUILT', 'CLOSED'], ['LAUNCHED', 'FAILED']]
+        for n in range(shift + 1):
+            if not fresh:
+                break
+            cid = fresh.pop()
+            for st in rng.choice(plans):
+                push(['circ', cid, st])
+                if rng.random() < 0.3:
+                    push(rng.choice([['reply', True], self._stream_move(rng, sh, None, finding_ok), self._circ_move(rng, sh)]))
+        push(['fire', before])
 
     def _via_plan(self, rng, tier, finding_ok):
         """several concurrent via-circuit connections, each a thread of operations; unrelated streams,
@@ -745,8 +781,10 @@ class P(core.Prop):
             else:
                 if r < 0.18:
                     push(self._circ_move(rng, sh))
-                elif r < 0.62:
+                elif r < 0.57:
                     push(self._stream_move(rng, sh, None, finding_ok))
+                elif r < 0.62:
+                    self._built_meanwhile(rng, sh, push, finding_ok)
                 elif r < 0.72:
                     push(['fire', rng.randrange(0, max(1, sh.npend + 1))])
                 elif r < 0.84:
@@ -821,7 +859,26 @@ class P(core.Prop):
                                         ops.append(['fire', 0])
                                     ops.append(['flush'])
                                     out.append({'ops': ops, 'scenario': 'exhaustive'})
-        return out, 'answer kinds x circuit states x modes x Deferred/coroutine x NEW/NEWRESOLVE x idle/busy channel'
+        # a late answer naming a circuit created between consultation and answer: every way the circuit can have fared
+        meanwhile = [['LAUNCHED'], ['LAUNCHED', 'EXTENDED'], ['LAUNCHED', 'EXTENDED', 'BUILT'], ['BUILT'],
+                     ['BUILT', 'CLOSED'], ['LAUNCHED', 'FAILED'], ['LAUNCHED', 'BUILT', 'CLOSED']]
+        for plan in meanwhile:
+            for older in (False, True):          # another circuit existed already (the new object is then #1)
+                for fl in 'dc':
+                    for busy in (False, True):
+                        for prio in (False, True):
+                            ops = ([['circ', 2, 'BUILT']] if older else []) + [['setatt', 'prio' if prio else ['custom', 0]]]
+                            if prio:
+                                ops.append(['prioadd', 0, 1])
+                            if not busy:
+                                ops.append(['reply', True])
+                            oid = 1 if older else 0
+                            ops.append(['stream', 3, 'NEW', 0, 'example.com', 80, None, [[['circ', oid], 'later', fl]]])
+                            ops += [['circ', 7, st] for st in plan]
+                            ops += [['fire', 0], ['flush']]
+                            out.append({'ops': ops, 'scenario': 'exhaustive'})
+        return out, ('answer kinds x circuit states x modes x Deferred/coroutine x NEW/NEWRESOLVE x idle/busy channel; '
+                     'late answers naming a circuit created between consultation and answer x its fate meanwhile')
 
     def kind(self, case, obs):
         f = analyse(case, obs)
